@@ -1226,6 +1226,17 @@ impl Core {
 			},
 		)?;
 
+		// Re-open the WAL writer now that recovery is done: the writer created in
+		// `CoreInner::new` was opened for append BEFORE replay, and repair may have
+		// rewritten (renamed over) or removed the segment since. Appending through
+		// the old handle would write to an unlinked file and lose those commits.
+		{
+			let log_number = inner.level_manifest.read()?.get_log_number();
+			let reopened =
+				Wal::open_with_min_log_number(&wal_path, log_number, wal::Options::default())?;
+			*inner.wal.write() = reopened;
+		}
+
 		// Set recovered memtable as active (if any)
 		if let Some(memtable) = recovered_memtable {
 			let mut active_memtable = inner.active_memtable.write()?;
@@ -1618,6 +1629,15 @@ impl Tree {
 				Ok(())
 			},
 		)?;
+
+		// Re-open the WAL writer after replay (repair may have replaced the file
+		// the writer above was opened on; see `Core::new`).
+		{
+			let log_number = self.core.inner.level_manifest.read()?.get_log_number();
+			let reopened =
+				Wal::open_with_min_log_number(&wal_path, log_number, wal::Options::default())?;
+			*self.core.inner.wal.write() = reopened;
+		}
 
 		// Set recovered memtable as active (if any)
 		if let Some(memtable) = recovered_memtable {
